@@ -653,3 +653,24 @@ RECIPES += [
     start = 1
 ''', "wtset skips the first id"),
 ]
+
+RECIPES += [
+    ("C13", "neutral", [], B, _NASINTS, '''    n = len(ints)
+    firstline = 10 - start
+    if n < firstline:
+        f.write(("%8d" * n + "\\n") % tuple(ints))
+        return
+    i = firstline
+    f.write(("%8d" * i + "\\n") % tuple(ints[:i]))
+    while n >= i + 8:
+        f.write(("%8s" + "%8d" * 8 + "\\n") % ("", *ints[i : i + 8]))
+        i += 8
+    if n > i:
+        rest = n - i
+        f.write(("%8s" + "%8d" * rest + "\\n") % ("", *ints[i:]))
+''', "wtnasints with % formatting and an early return"),
+    ("C13", "neutral", [], B, '''            i = j
+            dct[name] = pd.DataFrame(mat, index=rowindex, columns=colindex)''', '''            i = j
+            frame = pd.DataFrame(mat, rowindex, colindex)
+            dct[name] = frame''', "rddmig DataFrame with positional index / columns"),
+]
